@@ -105,6 +105,10 @@ func (p hProg) render() string {
 			fmt.Fprintf(sb, "func use%d(m %s) int { return len(deriveSort%s(deriveKeys%s(m))) }\n\n", i, T, c.Name, c.Name)
 		case "fmapkeys":
 			fmt.Fprintf(sb, "func use%d(m %s) int { return len(deriveFmap%s(func(k %s) bool { return true }, deriveKeys%s(m))) }\n\n", i, T, c.Name, mapKeyOf(T), c.Name)
+		case "deepchain": // four derive calls deep: every level only types after the one below it was generated
+			fmt.Fprintf(sb, "func use%d(m %s) int { return len(deriveUnique%s(deriveSort%s(deriveFmap%s(func(k %s) %s { return k }, deriveKeys%s(m))))) }\n\n", i, T, c.Name, c.Name, c.Name, mapKeyOf(T), mapKeyOf(T), c.Name)
+		case "curryflow": // the value flowing from the inner to the outer derive call is a FUNCTION over a program type
+			fmt.Fprintf(sb, "func fn%d(x %s, n int) int { return n }\n\nfunc use%d() func(%s, int) int { return deriveUncurry%s(deriveCurry%s(fn%d)) }\n\n", i, T, i, T, c.Name, c.Name, i)
 		case "contains":
 			fmt.Fprintf(sb, "func use%d(l []%s, x %s) bool { return deriveContains%s(l, x) }\n\n", i, T, T, c.Name)
 		case "unique":
@@ -156,6 +160,13 @@ func randCall0(r *rand.Rand, p hProg, seq *int) hCall {
 		}
 		return hCall{Kind: kind, Name: name, Arg: args[r.Intn(len(args))]}
 	case k < 10:
+		if r.Intn(4) == 0 {
+			if r.Intn(2) == 0 {
+				return hCall{Kind: "deepchain", Name: name, Arg: hMapTypes[r.Intn(len(hMapTypes))]}
+			}
+			args := p.structArgs()
+			return hCall{Kind: "curryflow", Name: name, Arg: args[r.Intn(len(args))]}
+		}
 		return hCall{Kind: []string{"keys", "sortkeys", "fmapkeys"}[k-7], Name: name, Arg: hMapTypes[r.Intn(len(hMapTypes))]}
 	default:
 		kind := []string{"contains", "unique", "min"}[r.Intn(3)]
@@ -196,6 +207,10 @@ func (p hProg) dedupCalls() hProg {
 			keys = []string{"keys|" + c.Arg, "sort|" + mapKeyOf(c.Arg)}
 		case "fmapkeys":
 			keys = []string{"keys|" + c.Arg, "fmap|" + mapKeyOf(c.Arg)}
+		case "deepchain":
+			keys = []string{"keys|" + c.Arg, "fmap|" + mapKeyOf(c.Arg), "sort|" + mapKeyOf(c.Arg), "unique|" + mapKeyOf(c.Arg)}
+		case "curryflow":
+			keys = []string{"curry|" + c.Arg, "uncurry|" + c.Arg}
 		}
 		ok := true
 		for _, k := range keys {
@@ -290,7 +305,7 @@ func edit(r *rand.Rand, p hProg, seq *int) (hProg, string) {
 		case 7: // change the type flowing from an inner derive call into an outer one
 			var idx []int
 			for i, c := range q.Calls {
-				if c.Kind == "sortkeys" || c.Kind == "fmapkeys" {
+				if c.Kind == "sortkeys" || c.Kind == "fmapkeys" || c.Kind == "deepchain" {
 					idx = append(idx, i)
 				}
 			}
@@ -314,7 +329,7 @@ func edit(r *rand.Rand, p hProg, seq *int) (hProg, string) {
 		case 8: // change only the element type of a nested call's map (inner signature changes, result type stays)
 			var idx []int
 			for i, c := range q.Calls {
-				if c.Kind == "sortkeys" || c.Kind == "fmapkeys" || c.Kind == "keys" {
+				if c.Kind == "sortkeys" || c.Kind == "fmapkeys" || c.Kind == "keys" || c.Kind == "deepchain" {
 					idx = append(idx, i)
 				}
 			}
